@@ -29,6 +29,10 @@ PROPERTY {pid} - {title}
 {statement}
 
 {known_block}
+Never use `git stash` (the stash is shared by all worktrees of the repository, and other people work in sibling worktrees):
+to get back to a clean tree save your change with `git -C {wt} diff > file`, run `git -C {wt} checkout -- .`, and re-apply it
+with `git -C {wt} apply file`.
+
 Produce THREE changes (k = 1, 2, 3), each made independently on a clean tree (`git -C {wt} checkout -- .` between
 them), each with a genuinely different mechanism. Every change must satisfy ALL of the following:
 
